@@ -645,7 +645,12 @@ def fidelity(rho, sigma):
     assert is_density_matrix(rho)
     assert is_density_matrix(sigma)
 
-    if is_pure(rho) or is_pure(sigma):
+    # the simplified expression is exact only for a pure state; is_pure accepts a purity of 1 - 1e-5, for which the
+    # simplified expression can be off by sqrt(1e-5), so purity is decided more tightly here
+    def _pure(state):
+        return np.isclose(np.real(np.trace(state @ state)), 1.0, rtol=0.0, atol=1e-12)
+
+    if _pure(rho) or _pure(sigma):
         # if either one is pure, use the simplified expression
         return np.maximum(np.minimum(np.real(np.trace(rho @ sigma)), 1.0), 0.0)
     else:
